@@ -198,19 +198,20 @@ pub fn src_perm(f: &FileCfg) -> u32 {
 }
 /// the mode that must be read back for the file
 pub fn expected_mode(f: &FileCfg) -> u32 {
-    match (f.mode_wide, f.mode) {
-        (Some(w), _) => (w as u32) & 0xFFFF,
-        (None, Some(m)) => m as u32,
+    // (an explicit 16-bit mode, when a scenario sets one, takes precedence over the wide integer)
+    match (f.mode, f.mode_wide) {
+        (Some(m), _) => m as u32,
+        (None, Some(w)) => (w as u32) & 0xFFFF,
         (None, None) => 0o100000 | src_perm(f),
     }
 }
 
 pub fn file_options(f: &FileCfg) -> Result<FileOptions, rpm::Error> {
     let mut o = FileOptions::new(f.dest.clone());
-    if let Some(w) = f.mode_wide {
-        o = o.mode(w);
-    } else if let Some(m) = f.mode {
+    if let Some(m) = f.mode {
         o = o.mode(FileMode::from(m));
+    } else if let Some(w) = f.mode_wide {
+        o = o.mode(w);
     }
     if let Some(u) = &f.user {
         o = o.user(u.clone());
